@@ -4,7 +4,7 @@ CONSTANTS NClasses = 3
  Nla = {"none"}
  ZeroK = FALSE
  MaxMarks = 1
- WithDeps = FALSE
- MaxDeps = 2
+ WithDeps = TRUE
+ MaxDeps = 1
 INVARIANT Emit
 CHECK_DEADLOCK FALSE
